@@ -988,3 +988,87 @@ def maybe_gc(every: int = 50) -> None:
     _gc_n += 1
     if _gc_n % every == 0:
         gc.collect()
+
+
+def run_runner_exit(sc: dict, t_exit: float):
+    """The real asyncio.run() path: the program's main coroutine returns at virtual instant t_exit leaving
+    buses running and handlers in flight; asyncio.Runner.close() then cancels every task and waits for them.
+    Returns (closed_ok, detail)."""
+    global _RUN
+    patch_threads()
+    seed = int(sc.get('seed', 0))
+    reset_globals(seed)
+    run = Run(sc, None)
+    holder = {}
+
+    def factory():
+        loop = VLoop(seed=seed, horizon=600.0, max_steps=400_000, livelock=40_000)
+        loop.set_exception_handler(lambda l, ctx: None)
+        holder['loop'] = loop
+        run.loop = loop
+        return loop
+
+    async def main():
+        for i, d in enumerate(sc['buses']):
+            if not d.get('lazy'):
+                run.getbus(i)
+        loop = asyncio.get_running_loop()
+        for ai, ops in enumerate(sc.get('actors', [])):
+            t = loop.create_task(run._actor(ai, ops))
+            run.task_role[id(t)] = f'A{ai}'
+            run.actor_tasks.append(t)
+        await asyncio.sleep(t_exit)
+        run.rec('main_returns')
+
+    lg = logging.getLogger('bubus')
+    lg.addHandler(run.log)
+    old_prop = lg.propagate
+    lg.propagate = False
+    _RUN = run
+    detail = {'t_exit': t_exit}
+    ok = True
+    runner = asyncio.Runner(loop_factory=factory)
+    try:
+        try:
+            runner.run(main())
+        except Hang as h:
+            ok = False
+            detail['phase'] = 'run'
+            detail['hang'] = str(h)
+        loop = holder.get('loop')
+        if loop is not None and ok:
+            detail['vt_before_close'] = loop._vt
+            detail['running_buses'] = [i for i, b in run.buses.items() if b._is_running]
+            detail['tasks_before_close'] = len([t for t in asyncio.all_tasks(loop) if not t.done()])
+            loop.horizon = loop._vt + 30.0
+            loop.max_steps = loop.steps + 100_000
+            loop._same_t = 0
+            try:
+                runner.close()
+                detail['vt_after_close'] = loop._vt
+            except Hang as h:
+                ok = False
+                detail['phase'] = 'close'
+                detail['hang'] = str(h)
+                detail['stuck_tasks'] = [t.get_name()[:60] for t in asyncio.all_tasks(loop) if not t.done()][:6]
+    finally:
+        loop = holder.get('loop')
+        for b in list(run.buses.values()):
+            b._is_running = False
+            if b.event_queue is not None:
+                try:
+                    b.event_queue.shutdown()
+                except Exception:
+                    pass
+        if loop is not None and not loop.is_closed():
+            hard_close(loop)
+        asyncio.set_event_loop(None)
+        _RUN = None
+        lg.removeHandler(run.log)
+        lg.propagate = old_prop
+    n = len(run.tr)
+    run.keep.clear()
+    run.events.clear()
+    run.buses.clear()
+    detail['records'] = n
+    return ok, detail
